@@ -138,10 +138,11 @@ array_diff(void *buf1, void *buf2, uint32 tot_cnt, const char *name1, const char
     float64  d_sumx = 0., d_sumy = 0., d_sumx2 = 0., d_sumy2 = 0., d_sumxy = 0.;
     float64  slope, intercept, correlation;
     float32  f_diff;
-    int32    i4_diff, i4_max_diff = 0;
+    int64_t  i4_diff;
+    int32    i4_max_diff = 0;
     int32    i4_max_val1 = 0, i4_min_val1 = 0, i4_max_val2 = 0, i4_min_val2 = 0;
-    int16    i2_diff;
-    int8     c_diff;
+    int32    i2_diff; /* |a-b| of two 16-bit values needs 17 bits */
+    int32    c_diff;  /* |a-b| of two 8-bit values needs 9 bits */
     int      is_fill1, is_fill2;
     int      n_stats = 0;
     char    *debug;
@@ -240,7 +241,7 @@ array_diff(void *buf1, void *buf2, uint32 tot_cnt, const char *name1, const char
             i1ptr1 = (int8 *)buf1;
             i1ptr2 = (int8 *)buf2;
             for (i = 0; i < tot_cnt; i++) {
-                c_diff   = (int8)abs(*i1ptr1 - *i1ptr2);
+                c_diff   = abs(*i1ptr1 - *i1ptr2);
                 is_fill1 = fill1 && (*i1ptr1 == *((int8 *)fill1));
                 is_fill2 = fill2 && (*i1ptr2 == *((int8 *)fill2));
                 if (!is_fill1 && !is_fill2) {
@@ -320,7 +321,7 @@ array_diff(void *buf1, void *buf2, uint32 tot_cnt, const char *name1, const char
             i2ptr1 = (int16 *)buf1;
             i2ptr2 = (int16 *)buf2;
             for (i = 0; i < tot_cnt; i++) {
-                i2_diff  = (int16)abs(*i2ptr1 - *i2ptr2);
+                i2_diff  = abs(*i2ptr1 - *i2ptr2);
                 is_fill1 = fill1 && (*i2ptr1 == *((int16 *)fill1));
                 is_fill2 = fill2 && (*i2ptr2 == *((int16 *)fill2));
                 if (debug) {
@@ -402,7 +403,7 @@ array_diff(void *buf1, void *buf2, uint32 tot_cnt, const char *name1, const char
             i4ptr1 = (int32 *)buf1;
             i4ptr2 = (int32 *)buf2;
             for (i = 0; i < tot_cnt; i++) {
-                i4_diff  = abs(*i4ptr1 - *i4ptr2);
+                i4_diff  = llabs((int64_t)*i4ptr1 - (int64_t)*i4ptr2);
                 is_fill1 = fill1 && (*i4ptr1 == *((int32 *)fill1));
                 is_fill2 = fill2 && (*i4ptr2 == *((int32 *)fill2));
                 if (!is_fill1 && !is_fill2) {
@@ -414,7 +415,7 @@ array_diff(void *buf1, void *buf2, uint32 tot_cnt, const char *name1, const char
                     d_sumx2 += d_val1 * d_val1;
                     d_sumy2 += d_val2 * d_val2;
                     d_sumxy += d_val1 * d_val2;
-                    i4_max_diff = MYMAX(i4_max_diff, i4_diff);
+                    i4_max_diff = (int32)MYMAX((int64_t)i4_max_diff, MYMIN(i4_diff, (int64_t)INT32_MAX));
                     n_stats++;
                 }
                 if (!is_fill1) {
@@ -455,12 +456,12 @@ array_diff(void *buf1, void *buf2, uint32 tot_cnt, const char *name1, const char
                     }
                 }
 
-                else if (i4_diff > (int32)err_limit) {
+                else if (i4_diff > (int64_t)err_limit) {
                     n_diff++;
                     if (n_diff <= max_err_cnt) {
                         print_pos(&ph, i, acc, pos, rank, name1, name2);
                         printf(SPACES);
-                        printf(IFORMAT, *i4ptr1, *i4ptr2, i4_diff);
+                        printf(IFORMAT, *i4ptr1, *i4ptr2, (int32)MYMIN(i4_diff, (int64_t)INT32_MAX));
                     }
                 }
                 i4ptr1++;
